@@ -10,7 +10,7 @@ from reactivex.notification import OnCompleted, OnError, OnNext
 
 from .. import registry as R
 from ..common import UnitResult, case_rng, chunks, show
-from ..single import SUB_AT, cut_after_terminal, make_input, match_expected, run_single, show_timed
+from ..single import SUB_AT, cut_after_terminal, make_input, match_expected, run_single, run_twice, show_timed
 from ..vlab import SrcErr, gen_timeline, show_timeline
 
 ID = "C05"
@@ -27,7 +27,7 @@ OPS = ["map", "map_indexed", "filter", "filter_indexed", "take", "skip", "take_w
        "default_if_empty", "ignore_elements", "take_last", "skip_last", "take_last_buffer", "element_at",
        "element_at_or_default", "find", "find_index", "starmap", "pluck", "pluck_attr",
        "materialize", "dematerialize"]
-REQUIRED = {"set:ops": len(OPS)}
+REQUIRED = {"set:ops": len(OPS), "second_subscriptions_checked": {"quick": 300, "thorough": 20000}}
 
 
 class Box:
@@ -94,6 +94,12 @@ def gen_case(r: Any, idx: int) -> dict:
             new.append((t, k, v))
         tl = new
     return {"op": op, "P": P, "tl": tl, "hot": hot, "domain": domain}
+
+
+def regen_timeline(r: Any, case: dict) -> list:
+    """another timeline of the same shape (same value wrapping) for the second subscription"""
+    c2 = gen_case(r, OPS.index(case["op"]))
+    return c2["tl"]
 
 
 def build(case: dict) -> Any:
@@ -332,6 +338,17 @@ def run_case(seed: int, idx: int, res: UnitResult) -> None:
     if why is not None:
         res.violation("C05:%s" % case["op"], {"why": why, "case": desc, "expected": show_timed(expected), "observed": show_timed(actual)},
                       {"seed": seed, "idx": idx})
+    if why is None and not case["hot"] and r.random() < 0.4:
+        # the same observable object subscribed again over a source that yields DIFFERENT data to its second subscription
+        tl2 = regen_timeline(r, case)
+        lab2, o1, o2, t2 = run_twice(lambda lab, s: s.pipe(build(case)), list(case["tl"]), tl2)
+        exp2 = model(case, [(t2 + t, k, v) for (t, k, v) in tl2], t2)
+        res.count("second_subscriptions_checked")
+        why2 = match_expected(exp2, o2.timed())
+        if why2 is not None:
+            res.violation("C05:%s:second-subscription" % case["op"], {"why": why2, "case": desc, "second_timeline": show_timeline(tl2),
+                                                                      "expected": show_timed(exp2), "observed": show_timed(o2.timed())},
+                          {"seed": seed, "idx": idx})
 
 
 def run_unit(unit: dict, res: UnitResult) -> None:
